@@ -36,7 +36,7 @@ def run_config(ctx, config):
                 continue
             (_o, _s, _r, o, imp) = found[0]
             ctx.ob("output-type", inst, o == out, "Output is %s, expected %s" % (o, out), imp["span"])
-            opforms.body_form(ctx, "scalar-op", inst, U, imp, opforms.OPFN[op], want)
+            opforms.body_form(ctx, "scalar-op", inst, U, imp, opforms.OPFN[op], want, record=q)
             cnt += 1
         # borrowed-operand variants (&q * k, k * &q, &q / k, ...), should the tree have any: each must compute what
         # the by-value operator of the same operand pair computes (forwarding calls are looked through)
@@ -57,7 +57,7 @@ def run_config(ctx, config):
                 continue
             want, label = byval[(op, ss, rs)]
             ctx.ob("output-type", inst, o == Q, "Output is %s, expected %s" % (o, Q), imp["span"])
-            opforms.body_form(ctx, "scalar-ref-op", inst, U, imp, opforms.OPFN[op], want, inline=inl)
+            opforms.body_form(ctx, "scalar-ref-op", inst, U, imp, opforms.OPFN[op], want, inline=inl, record=q)
     ctx.floor("%s: scalar/unit operator impls" % config, cnt, 5 * (18 if config == "f64-all" else 14))
     # dimensionless amount
     dim = [q for q in w.qtypes if q.kind == "dimless"]
